@@ -5,6 +5,8 @@ import (
 	"encoding/binary"
 	"encoding/hex"
 	"fmt"
+	"github.com/evanoberholster/imagemeta/exif2/ifds"
+	"github.com/evanoberholster/imagemeta/imagetype"
 	"io"
 
 	"verif/envio"
@@ -24,6 +26,20 @@ func pristine() {
 	vsync.Chooser = nil
 	vsync.ResetPools()
 	exif2.VerifResetTimeZoneCache()
+	normalise()
+}
+
+// normalise makes a fixed set of cheap calls so that whatever the library remembers outside the pools (a memo of
+// the last call, a lazily built or lazily patched table) is in the same state at the start of every execution, in a
+// worker that has run thousands of other executions as in the replay that runs one alone: a failure that depends on
+// such state is then reproducible, and the execution that exposes it is the one that reports it.
+var zero24 = make([]byte, 24)
+
+func normalise() {
+	imagetype.Buf(zero24)
+	_ = ifds.SubIfd0.TagName(0x0111)
+	_ = ifds.SubIfd7.TagName(0x0117)
+	_ = ifds.IFD0.TagName(0x0111)
 }
 
 func defaultLogger() {
